@@ -5,7 +5,9 @@ dispatch for the *core* instruction set, `Exec.check` (quick checks + solver ora
 
 Core instruction set (stage 1): STOP, the 25 word instructions (through `execWord`, Model.BitVecOps),
 POP, PUSH0..PUSH32, DUP1..16, SWAP1..16, JUMPDEST, PC, JUMP, JUMPI, CALLDATALOAD, CALLDATASIZE, CALLER,
-CALLVALUE, ORIGIN, ADDRESS, INVALID, MLOAD / MSTORE / MSTORE8 with concrete offsets, and RETURN/REVERT with concrete
+CALLVALUE, ORIGIN, ADDRESS, INVALID, MLOAD / MSTORE / MSTORE8 / CALLDATACOPY / CODECOPY with concrete offsets and
+sizes, SLOAD / SSTORE / TLOAD / TSTORE on literal slots below 2^64 (non-symbolic initial storage), and RETURN/REVERT
+with concrete
 offset and size (the end state carries the returned byte terms). Every other opcode ends the path
 as *stuck* (which the engine reports as an error, never as a normal outcome) — so the theorems about this model
 are statements for all programs, and are informative for the programs over the core set.
@@ -46,7 +48,9 @@ structure Env where
   callvalue : T
   address : T
   cd : Nat → T                     -- `calldata.get_word(offset)` for a concrete offset
+  cdByte : Nat → T                 -- byte `i` of the calldata as an 8-bit term (zero beyond its end)
   cdSize : Nat
+  isStatic : Bool := false         -- `message.is_static`: fixed for the frame
 
 abbrev JumpId := Nat × List Nat    -- (pc, jump-destination tokens on the stack)
 
@@ -57,6 +61,8 @@ structure SState where
   visits : List (JumpId × (Nat × Nat)) := []   -- per jump id: (taken, not taken) counts on this path
   subst : List (T × T) := []       -- `path.concretization.substitution`: term ↦ literal, newest binding first
   mem : List T := []               -- memory as a flat array of byte terms (width 8), zero beyond its end
+  storage : List (Nat × T) := []   -- plain slots of the executing account written so far: slot ↦ 256-bit term, newest first
+  transient : List (Nat × T) := [] -- the same for transient storage
 
 inductive StuckReason where
   | notConcrete | unsupported (op : Nat) | internal (e : PyErr)
@@ -242,6 +248,17 @@ def jumpi (s : Simp) (o : Oracle) (cfg : Cfg) (code : List Nat) (st : SState) (t
       else []
     { next := stTrue ++ stFalse, bounded }
 
+/-- `storage[addr][slot, 0, 0]` of a non-symbolic storage: the term last stored, `Z3_ZERO` for an untouched slot -/
+def stoGet (σ : List (Nat × T)) (slot : Nat) : T :=
+  ((σ.find? (fun kv => kv.1 == slot)).map (·.2)).getD (.lit 256 0)
+
+/-- the tail of CALLDATACOPY / CODECOPY once the three operands are concrete: nothing for an empty range, the
+    `MAX_MEMORY_SIZE` checks of `calldata_slice` / `Contract.slice` / `set_mslice`, then the write -/
+def copyToMemOut (cfg : Cfg) (st : SState) (rest : List HV) (loc size : Nat) (byteAt : Nat → T) : StepOut :=
+  if size = 0 then contOut { st with pc := st.pc + 1, stack := rest }
+  else if loc + size > cfg.maxMem then haltOut st .outOfGas .memLimit
+  else contOut { st with pc := st.pc + 1, stack := rest, mem := writeMem st.mem loc ((List.range size).map byteAt) }
+
 /-- `push_any(v)` for a term of at most 256 bits (addresses are zero-extended) -/
 def pushTerm (s : Simp) (st : SState) (t : T) : SState :=
   { st with pc := st.pc + 1, stack := mkBV s (.term t) 256 :: st.stack }
@@ -387,6 +404,85 @@ def step (s : Simp) (o : Oracle) (cfg : Cfg) (env : Env) (code : List Nat) (st :
                 | .bv _ r => contOut { st with pc := st.pc + 1, stack := rest, mem := writeMem st.mem loc [asZ3 8 r] }
                 | .bool _ => stuckOut st (.internal .typeError)
         | _ => stuckOut st .notConcrete
+    else if op = 0x37 then
+      -- CALLDATACOPY: `loc = mloc(check_size=False)`, `offset = int_of(pop())`, `size = int_of(pop())`
+      match st.stack with
+      | [] => haltOut st .stackUnderflow
+      | lv :: r1 =>
+        match toBV256 s lv with
+        | .bv _ (.con loc) =>
+          match r1 with
+          | [] => haltOut st .stackUnderflow
+          | ov :: r2 =>
+            match toBV256 s ov with
+            | .bv _ (.con off) =>
+              match r2 with
+              | [] => haltOut st .stackUnderflow
+              | sv :: rest =>
+                match toBV256 s sv with
+                | .bv _ (.con size) =>
+                  copyToMemOut cfg st rest loc size (fun i => env.cdByte (off + i))
+                | _ => stuckOut st .notConcrete
+            | _ => stuckOut st .notConcrete
+        | _ => stuckOut st .notConcrete
+    else if op = 0x39 then
+      -- CODECOPY: `loc = mloc(check_size=False)`, `offset = popi()`, `size = int_of(pop())`; a symbolic offset with a
+      -- non-empty range makes the code introduce a fresh symbol (outside the core)
+      match st.stack with
+      | [] => haltOut st .stackUnderflow
+      | lv :: r1 =>
+        match toBV256 s lv with
+        | .bv _ (.con loc) =>
+          match r1 with
+          | [] => haltOut st .stackUnderflow
+          | ov :: r2 =>
+            match r2 with
+            | [] => haltOut st .stackUnderflow
+            | sv :: rest =>
+              match toBV256 s sv with
+              | .bv _ (.con size) =>
+                if size = 0 then contOut { st with pc := st.pc + 1, stack := rest }
+                else
+                  match toBV256 s ov with
+                  | .bv _ (.con off) =>
+                    copyToMemOut cfg st rest loc size (fun i => .lit 8 ((code[off + i]?).getD 0))
+                  | _ => stuckOut st (.unsupported op)
+              | _ => stuckOut st .notConcrete
+        | _ => stuckOut st .notConcrete
+    else if op = 0x54 ∨ op = 0x5c then
+      -- SLOAD / TLOAD of a plain slot of the executing account (`SolidityStorage.load`, scalar case: the slot is a
+      -- literal that is not a registered hash). A symbolic slot: `int_of` raises NotConcreteError. Slots from 2^64 on
+      -- are left outside the core (a literal may be a known hash, which the code decodes as an array access).
+      match st.stack with
+      | [] => haltOut st .stackUnderflow
+      | kv :: rest =>
+        match toBV256 s kv with
+        | .bv _ (.con slot) =>
+          if slot < 2 ^ 64 then
+            contOut { st with pc := st.pc + 1,
+                              stack := mkBV s (.term (stoGet (if op = 0x54 then st.storage else st.transient) slot)) 256 :: rest }
+          else stuckOut st (.unsupported op)
+        | _ => stuckOut st .notConcrete
+    else if op = 0x55 ∨ op = 0x5d then
+      -- SSTORE / TSTORE: both operands are popped, then `is_static` is checked (WriteInStaticContext), then the slot
+      -- is decoded
+      match st.stack with
+      | kv :: v :: rest =>
+        if env.isStatic then haltOut st .writeInStatic
+        else
+          match toBV256 s kv with
+          | .bv _ (.con slot) =>
+            if slot < 2 ^ 64 then
+              match toBV256 s v with
+              | .bv _ r =>
+                if op = 0x55 then
+                  contOut { st with pc := st.pc + 1, stack := rest, storage := (slot, asZ3 256 r) :: st.storage }
+                else
+                  contOut { st with pc := st.pc + 1, stack := rest, transient := (slot, asZ3 256 r) :: st.transient }
+              | .bool _ => stuckOut st (.internal .typeError)
+            else stuckOut st (.unsupported op)
+          | _ => stuckOut st .notConcrete
+      | _ => haltOut st .stackUnderflow
     else stuckOut st (.unsupported op)
 
 /-- the worklist loop. `steps` is `step_id`, counted over the whole run as in the code. -/
